@@ -141,6 +141,7 @@ type chainCase struct {
 	Tape     []Op
 	Prologue int
 	Cfg      NodeConfig
+	Regime   Regime
 }
 
 func drawCase(rt *rapid.T) chainCase {
@@ -148,6 +149,10 @@ func drawCase(rt *rapid.T) chainCase {
 	c.Prologue = rapid.SampledFrom([]int{0, 1, 1, 2, 2, 3}).Draw(rt, "prologue")
 	c.Tape = DrawTape(rt, 6, 10)
 	c.Cfg = DefaultNodeConfig("n0")
+	c.Regime = DefaultRegime()
+	if rapid.IntRange(0, 5).Draw(rt, "preSlipChangeFork") == 0 {
+		c.Regime.ConversionSlipChangeBlock = 1 << 40 // the historic side of the conversion-discount fork
+	}
 	c.Cfg.IndexAddressUtxos = rapid.Bool().Draw(rt, "indexAddressUtxos")
 	c.Cfg.MinerPreference = rapid.SampledFrom([]float64{0, 0.5, 1}).Draw(rt, "minerPreference")
 	c.Cfg.CoinbaseLockup = uint8(rapid.IntRange(0, 3).Draw(rt, "coinbaseLockup"))
@@ -237,7 +242,8 @@ func chainPropertyOpt(t *testing.T, prop string, engines bool, prologues []int, 
 		}
 		tr := simkit.NewTrace()
 		var v *violation
-		res := runChainP(t, tr, c.Cfg, DefaultRegime(), c.Prologue, c.Tape, func(r *Runner) Hooks {
+		res := runChainP(t, tr, c.Cfg, c.Regime, c.Prologue, c.Tape, func(r *Runner) Hooks {
+			r.Regime = c.Regime
 			return mk(r, func(class, witness, detail string) {
 				if v == nil {
 					v = &violation{class, witness, detail}
